@@ -75,6 +75,36 @@ func c16DB(cs c16Case, now time.Time) *promeval.DB {
 	return db
 }
 
+// c16CommentExempts: does the selector written inside promql/series(...) of the case's comment name this vector selector?
+// By the documentation: the metric name alone, the whole selector, or a selector all of whose matchers the query's selector
+// carries (in any order).
+func c16CommentExempts(comment string, vs *promParser.VectorSelector) bool {
+	i, j := strings.Index(comment, "promql/series("), strings.LastIndex(comment, ")")
+	if i < 0 || j < i {
+		return false
+	}
+	inner := comment[i+len("promql/series(") : j]
+	if inner == vs.Name || inner == vs.String() {
+		return true
+	}
+	ms, err := promParser.ParseMetricSelector(inner)
+	if err != nil {
+		return false
+	}
+	for _, m := range ms {
+		found := false
+		for _, q := range vs.LabelMatchers {
+			if q.Type == m.Type && q.Name == m.Name && q.Value == m.Value {
+				found = true
+			}
+		}
+		if !found {
+			return false
+		}
+	}
+	return true
+}
+
 func c16Eval(r *hx.Run, cs c16Case) {
 	now := time.Now().UTC()
 	db := c16DB(cs, now)
@@ -164,7 +194,7 @@ func c16Eval(r *hx.Run, cs c16Case) {
 			}
 		}
 		hasFallback := guarded[vs.String()]
-		exempt := hasFallback || (cs.Comment != "" && strings.Contains(cs.Comment, "("+vs.Name+")")) || strings.HasPrefix(vs.Name, "ALERTS")
+		exempt := hasFallback || (cs.Comment != "" && c16CommentExempts(cs.Comment, vs)) || strings.HasPrefix(vs.Name, "ALERTS")
 		show := func() []string {
 			var o []string
 			for _, p := range mine {
@@ -203,8 +233,8 @@ func c16Eval(r *hx.Run, cs c16Case) {
 			if cl := classOf[vs.Name]; cl != "never" && cl != "" {
 				baseRanges = 1
 			}
-			disabled := cs.Comment != "" && strings.Contains(cs.Comment, "disable") && strings.Contains(cs.Comment, "("+vs.Name+")")
-			snoozed := cs.Comment != "" && strings.Contains(cs.Comment, "snooze") && strings.Contains(cs.Comment, "("+vs.Name+")")
+			disabled := cs.Comment != "" && strings.Contains(cs.Comment, "disable") && c16CommentExempts(cs.Comment, vs)
+			snoozed := cs.Comment != "" && strings.Contains(cs.Comment, "snooze") && c16CommentExempts(cs.Comment, vs)
 			ignored := cs.Ignore != "" && strings.HasPrefix(vs.Name, strings.TrimSuffix(cs.Ignore, ".*"))
 			probe := map[string]any{"isAlerts": false, "disabled": disabled, "snoozed": snoozed, "instantErr": false, "instantCount": count,
 				"bareEmpty": false, "baseErr": false, "baseRanges": baseRanges, "producer": cs.Producer == vs.Name, "otherServers": true, "ignored": ignored}
@@ -297,6 +327,37 @@ func runC16(r *hx.Run, replay string) {
 			cs.Comment = "# pint disable promql/series(" + hx.Pick(rr, names) + ")"
 		case 2:
 			cs.Comment = "# pint snooze 2099-01-01 promql/series(" + hx.Pick(rr, names) + ")"
+		case 5:
+			// the selector form of the comment: a whole selector of the query, its matchers in another order, or ANOTHER
+			// metric's name with matchers this query's selectors carry (which names none of them)
+			var sels []*promParser.VectorSelector
+			if node, err := promParser.ParseExpr(cs.Expr); err == nil {
+				promParser.Inspect(node, func(n promParser.Node, _ []promParser.Node) error {
+					if v, ok := n.(*promParser.VectorSelector); ok && v.Name != "" {
+						sels = append(sels, v)
+					}
+					return nil
+				})
+			}
+			if len(sels) > 0 {
+				v := hx.Pick(rr, sels)
+				var ms []string
+				for _, m := range v.LabelMatchers {
+					if m.Name != "__name__" {
+						ms = append(ms, m.String())
+					}
+				}
+				rr.Shuffle(len(ms), func(a, b int) { ms[a], ms[b] = ms[b], ms[a] })
+				name := v.Name
+				if rr.Intn(2) == 0 {
+					name = hx.Pick(rr, []string{"some_other_metric", hx.Pick(rr, names)})
+				}
+				inner := name
+				if len(ms) > 0 {
+					inner += "{" + strings.Join(ms, ", ") + "}"
+				}
+				cs.Comment = hx.Pick(rr, []string{"# pint disable promql/series(", "# pint snooze 2099-01-01 promql/series("}) + inner + ")"
+			}
 		case 3:
 			cs.Ignore = hx.Pick(rr, names) + ".*"
 		case 4:
